@@ -52,6 +52,9 @@ func (t *Table) PrimaryKey() []string {
 }
 
 func (t *Table) writeMeta(w io.Writer, columns []string, pk []uint32, rowsCount uint32) (total int64, err error) {
+	if err = CheckStrLens(columns); err != nil {
+		return 0, fmt.Errorf("column name: %v", err)
+	}
 	buf := misc.NewBuffer(nil)
 	for _, f := range []fieldEncode{
 		{"columns", objline.WriteBytes(NewStrListEncoder(true).Encode(columns))},
